@@ -90,6 +90,14 @@ def points(tier: str) -> List[dict]:
                 pts.append({"kind": "bools", "n": n, "height": h, "dom_h": 1, "cons": 1, "op": "min", "objective": 0, "needs": n + 1})
                 if h <= 6:
                     pts.append({"kind": "chain", "n": n, "w": 3, "height": h, "dom_h": 0, "cons": 0, "limit": 10 ** 6, "needs": None})
+    # branch and bound whose FIRST incumbent is found at depth 1 (x0 = 0 forces everything) while the improving
+    # iterations need up to n + 1 levels: an overflow that comes after an incumbent exists must still be an error, the
+    # incumbent is not the optimum
+    for h in ((2, 3, 4, 6) if not th else (2, 3, 4, 5, 6, 7, 8, 9)):
+        for n in ((5, 8) if not th else (4, 5, 8, 10)):
+            for cons in (0, 1):
+                pts.append({"kind": "gated", "n": n, "height": h, "dom_h": 0, "cons": cons, "limit": 1, "op": "max", "objective": n + 1, "needs": None, "ref_height": 64})
+                pts.append({"kind": "gated", "n": n, "height": h, "dom_h": 0, "cons": cons, "limit": 1, "op": "min", "objective": 0, "needs": None, "ref_height": 64})
     # the same exhaustion inside a worker of the multiprocessing solver: the caller must see an error, not a partial answer
     for h in ((2, 4, 6, 8) if not th else (2, 3, 4, 5, 6, 7, 8)):
         for n in ((5,) if not th else (3, 5)):
